@@ -1,7 +1,7 @@
 //@ unit C02_ctx
 //@ props C02 C04 C01
 //@ strength proved-unbounded
-//@ min-verified 3
+//@ min-verified 5
 //@ assume MatchType::find_nth carries the contract PROVED in unit C02_find (restated: a Some result is never before `index`)
 //@ assume checked_add carries the contract PROVED complete by Kani C04_subst::length_arith (Some(base + changes) when that is a usize, None otherwise)
 //@ assume apply_subst carries the contract PROVED in unit C02_subst (the two functions are mutually recursive through contextsubst; each unit is verified against the other's contract, termination by the decreasing recursion_limit is stated, not proved): Ok(Some(c)) - the run's length changed by exactly c (0 for single / alternate / reverse chaining, count - 1 for multiple, -removed for ligature, the nested change for contextual lookups, which is this unit's own postcondition); Ok(None) - length unchanged. Nothing is assumed about whether c stays within the span of the context's input sequence: a nested ligature works on the whole run
@@ -109,6 +109,41 @@ pub fn apply_subst<T: GlyphData>(
         // when the input sequence cannot be located nothing happens
         nth_spec(match_type, opt_gdef_table, old(glyphs)@, i, table_len(subst.match_context.input_table)) is None
             ==> r is Ok && r->Ok_0 is None && final(glyphs)@ == old(glyphs)@,
+//@ end
+
+pub struct ContextLookup<T> { pub opaque: T }
+pub struct ChainContextLookup<T> { pub opaque: T }
+/// which rule matches is decided with closures (context_lookup_info): opaque here - some context, none, or an error; the run is only read
+#[verifier::external_body]
+pub fn contextsubst_would_apply<'a, T: GlyphData>(opt_gdef_table: Option<&GDEFTable>, subtables: &'a [ContextLookup<GSUB>], match_type: MatchType, i: usize, glyphs: &Vec<RawGlyph<T>>)
+    -> (r: Result<Option<Box<SubstContext<'a>>>, ParseError>)
+    requires i < glyphs@.len()
+{ unimplemented!() }
+#[verifier::external_body]
+pub fn chaincontextsubst_would_apply<'a, T: GlyphData>(opt_gdef_table: Option<&GDEFTable>, subtables: &'a [ChainContextLookup<GSUB>], match_type: MatchType, i: usize, glyphs: &Vec<RawGlyph<T>>)
+    -> (r: Result<Option<Box<SubstContext<'a>>>, ParseError>)
+    requires i < glyphs@.len()
+{ unimplemented!() }
+
+/// the result contract units C02_lookup and C02_subst use for contextsubst / chaincontextsubst
+pub open spec fn ctx_result(old_len: int, new_len: int, i: int, r: Result<Option<(usize, isize)>, ParseError>) -> bool {
+    &&& r is Ok && r->Ok_0 is Some ==> new_len == old_len + r->Ok_0->Some_0.1 && i + r->Ok_0->Some_0.0 <= new_len && r->Ok_0->Some_0.0 - r->Ok_0->Some_0.1 >= 1
+    &&& r is Ok && r->Ok_0 is None ==> new_len == old_len
+    &&& new_len <= usize::MAX / 2
+}
+
+//@ fn src/gsub.rs | contextsubst
+//@ ret r
+//@ spec
+    requires i < old(glyphs)@.len(), old(glyphs)@.len() <= usize::MAX / 2
+    ensures ctx_result(old(glyphs)@.len() as int, final(glyphs)@.len() as int, i as int, r)
+//@ end
+
+//@ fn src/gsub.rs | chaincontextsubst
+//@ ret r
+//@ spec
+    requires i < old(glyphs)@.len(), old(glyphs)@.len() <= usize::MAX / 2
+    ensures ctx_result(old(glyphs)@.len() as int, final(glyphs)@.len() as int, i as int, r)
 //@ end
 
 } // verus!
